@@ -161,13 +161,22 @@ fn model_out(rows: &[FrameSnap], file: &[u8], start: u64, cpe: u64) -> (Vec<T>, 
     for f in rows { if f.len > 0 { pend = pend.max(f.off + f.len); } }
     let out_rows = rows.iter().map(|f| T::Tup(vec![T::N(f.id as u128), T::N(f.status as u128), T::N(f.off as u128), T::N(f.len as u128)])).collect();
     let cut = |a: u64, b: u64| -> Vec<u8> { let (s, e) = ((a as usize).min(file.len()), (b as usize).min(file.len())); file[s..e.max(s)].to_vec() };
-    let ix = if pend > cpe { cut(cpe, pend) } else { vec![] };
+    let _ = cpe;
+    let ix = cut(pend, pend + 16); // stand-in for the index image: the model writes it after the last payload
     (out_rows, cut(start, pend), ix, pend)
+}
+
+/// same digest as Corr/C42.v `digest`
+fn digest(b: &[u8]) -> T {
+    const M: u64 = 4294967291;
+    let (mut s1, mut s2) = (0u64, 0u64);
+    for (i, x) in b.iter().enumerate() { s1 = (s1 + *x as u64) % M; s2 = (s2 + (i as u64 + 1) * (*x as u64)) % M; }
+    T::Tup(vec![big(b[..b.len().min(4096)].to_vec()), T::N(b.len() as u128), T::N(s1 as u128), T::N(s2 as u128)])
 }
 
 fn row_term(f: &FrameSnap) -> T { T::Tup(vec![T::N(f.id as u128), T::N(f.status as u128), T::N(f.off as u128), T::N(f.len as u128), T::N(f.role as u128), T::N(f.meta as u128), T::B(f.has_text)]) }
 
-fn compare_tables(before: &[FrameSnap], after: &[FrameSnap], start: u64, when: &str, overflow: bool, viol: &mut Option<String>) {
+fn compare_tables(before: &[FrameSnap], after: &[FrameSnap], start: u64, when: &str, _overflow: bool, viol: &mut Option<String>) {
     if before.len() != after.len() { viol.get_or_insert(format!("frame-count-changed: {} the memory holds {} frames, {} before the vacuum", when, after.len(), before.len())); return; }
     let mut cursor = start;
     for (b, a) in before.iter().zip(after.iter()) {
@@ -175,17 +184,17 @@ fn compare_tables(before: &[FrameSnap], after: &[FrameSnap], start: u64, when: &
         if b.status == 0 {
             if (a.off, a.len) != (cursor, b.len) { viol.get_or_insert(format!("not-contiguous: {} active frame {} has window ({}, {}), expected ({}, {}) = running end of the previous active payloads with its old length", when, b.id, a.off, a.len, cursor, b.len)); }
             cursor += b.len;
-            let tag = if overflow { "shared-window-overflow" } else { "content-changed" };
+            let tag = "content-changed";
             if a.content != b.content { viol.get_or_insert(format!("{}: {} active frame {} content {:?}, before the vacuum {:?} (window before ({}, {}), after ({}, {}))", tag, when, b.id, a.content, b.content, b.off, b.len, a.off, a.len)); }
             else if a.raw != b.raw { viol.get_or_insert(format!("{}: {} active frame {} stored bytes differ from the ones before the vacuum (window before ({}, {}), after ({}, {}))", tag, when, b.id, b.off, b.len, a.off, a.len)); }
         } else if (a.off, a.len) != (0, 0) { viol.get_or_insert(format!("inactive-window-kept: {} inactive frame {} has window ({}, {}), expected (0, 0)", when, b.id, a.off, a.len)); }
     }
 }
 
-fn compare_batteries(before: &[(String, String, String)], after: &[(String, String, String)], when: &str, overflow: bool, viol: &mut Option<String>, order_changed: &mut bool) {
+fn compare_batteries(before: &[(String, String, String)], after: &[(String, String, String)], when: &str, _overflow: bool, viol: &mut Option<String>, order_changed: &mut bool) {
     for (b, a) in before.iter().zip(after.iter()) {
         if b.1 != a.1 {
-            let tag = if overflow { "shared-window-overflow" } else { "query-result-changed" };
+            let tag = "query-result-changed";
             viol.get_or_insert(format!("{}: {} {} returns {} ; before the vacuum {}", tag, when, b.0, &a.1[..a.1.len().min(400)], &b.1[..b.1.len().min(400)]));
         } else if b.2 != a.2 { *order_changed = true; }
     }
@@ -193,16 +202,26 @@ fn compare_batteries(before: &[(String, String, String)], after: &[(String, Stri
 
 pub fn run(seed: u64, n: usize, w: &mut dyn std::io::Write) {
     let mut r = Rng::new(seed ^ 0xC42);
-    // quick tier: the log-growth profile moves ~70 KB payloads (costly literals for coqc): every other one only
-    for i in 0..n { one_history(&mut r, i, n <= 30 && i % 12 != 2, w); }
+    // quick tier: the log-growth profile moves ~70 KB payloads (costly literals for coqc): one history only
+    // fixed regression histories first: the witness of the fixed finding F-C42-1, directly and through doctor
+    for via_doctor in [false, true] { one_history(&mut r, 3, true, Some(via_doctor), w); }
+    for i in 0..n { one_history(&mut r, i, n <= 30 && i != 2, None, w); }
 }
 
-fn one_history(r: &mut Rng, index: usize, no_growth: bool, w: &mut dyn std::io::Write) {
+fn one_history(r: &mut Rng, index: usize, no_growth: bool, script: Option<bool>, w: &mut dyn std::io::Write) {
     let profile = index % 6;
     let mut h = Hist::new();
-    let via_doctor = match profile { 1 => true, 0 | 5 => false, _ => r.chance(1, 2) };
-    let nops = match profile { 5 => r.range(0, 5), 3 => r.range(4, 10), _ => r.range(6, 22) } as usize;
+    let via_doctor = match (script, profile) { (Some(v), _) => v, (_, 1) => true, (_, 0 | 5) => false, _ => r.chance(1, 2) };
+    let nops = if script.is_some() { 0 } else { (match profile { 5 => r.range(0, 5), 3 => r.range(4, 10), _ => r.range(6, 22) }) as usize };
     let mut grow_at = if profile == 2 && !no_growth { Some(r.below(nops as u64) as usize) } else { None };
+    if script.is_some() {
+        // put 500 bytes; commit; update_frame(0, None) twice; commit  (frames 1 and 2 active, sharing frame 0's window)
+        h.tag("scripted:F-C42-1-witness");
+        h.apply(Op::Put { kind: PayloadKind::Bin, size: 500, uri: None, ts: 1_700_000_000, embed: None, default_opts: false });
+        h.apply(Op::Commit);
+        h.apply(Op::Update { target: 0, payload: None, uri: Some(1) });
+        h.apply(Op::Update { target: 0, payload: None, uri: Some(2) });
+    }
     let mut i = 0usize;
     while i < nops && h.failed.is_none() {
         if grow_at == Some(i) {
@@ -270,24 +289,26 @@ fn one_history(r: &mut Rng, index: usize, no_growth: bool, w: &mut dyn std::io::
     let file_len_before = file_before.len() as u64;
     let region: Vec<u8> = file_before[(start as usize).min(file_before.len())..(footer as usize).clamp(start as usize, file_before.len())].to_vec();
     let active_bytes: u64 = before.iter().filter(|f| f.status == 0).map(|f| f.len).sum();
-    let overflow = start + active_bytes > cpe;
+    let overflow = start + active_bytes > cpe; // the class of the fixed finding F-C42-1 (kept as a regression tag)
+    let shared_before = { let live: Vec<(u64, u64)> = before.iter().filter(|f| f.status == 0 && f.len > 0).map(|f| (f.off, f.len)).collect(); let mut l2 = live.clone(); l2.sort(); l2.dedup(); l2.len() != live.len() };
     let n_active = before.iter().filter(|f| f.status == 0).count();
     let n_inactive = before.len() - n_active;
     let reclaimable = cpe.saturating_sub(start + active_bytes);
 
     // ---------------- the vacuum
-    let mut viol: Option<String> = None; let mut verify_viol: Option<String> = None; let mut size_viol: Option<String> = None; let mut size_checked = false;
+    let mut viol: Option<String> = None; let mut size_note: Option<String> = None; let mut size_checked = false;
     let mut order_changed = false;
     // rebuild_vec_index (bit 4) is left out: on its own, without vacuum, it already empties the vector index (doctor's defect, not vacuum's)
     let bits: u8 = if via_doctor { 8 | (r.below(4) as u8) } else { 0 };
     let mode: u128 = if !via_doctor { 0 } else if bits & 7 != 0 { 2 } else { 1 };
-    let mut data_end_after = 0u64; let mut pending_after = 0u64; let verify_direct;
+    let mut data_end_after = 0u64; let mut cpe_after = 0u64; let mut pending_after = 0u64; let verify_direct;
     let mut mout: Option<(Vec<T>, Vec<u8>, Vec<u8>, u64)> = None;
     if !via_doctor {
         h.tag("direct");
         let obs = h.d.step(&Op::Vacuum);
         if !obs.ok { viol.get_or_insert("vacuum-failed: vacuum() returned an error on a healthy memory".into()); }
         data_end_after = memvid_core::verif_hooks::data_region(h.d.mem()).0;
+        cpe_after = memvid_core::verif_hooks::data_region(h.d.mem()).1;
         pending_after = memvid_core::verif_hooks::wal_stats(h.d.mem()).2;
         let (a, a_file) = snapshot(&mut h.d);
         compare_tables(&before, &a, start, "right after vacuum()", overflow, &mut viol);
@@ -302,7 +323,7 @@ fn one_history(r: &mut Rng, index: usize, no_growth: bool, w: &mut dyn std::io::
             if !(fresh_ok && c_ok) { viol.get_or_insert("put-after-vacuum-failed: a put + commit right after vacuum() failed".into()); }
             let (a2, _) = snapshot(&mut h.d);
             if a2.len() == before.len() + 1 {
-                let tagname = if overflow { "shared-window-overflow" } else { "content-changed-by-later-put" };
+                let tagname = "content-changed-by-later-put";
                 for (b, a) in before.iter().zip(a2.iter()) { if b.status == 0 && a.content != b.content { viol.get_or_insert(format!("{}: after vacuum() + put + commit in one session active frame {} content {:?}, before {:?}", tagname, b.id, a.content, b.content)); } }
                 let nf = &a2[before.len()];
                 if nf.content.is_err() { viol.get_or_insert(format!("{}: the frame put after vacuum() cannot be read: {:?}", tagname, nf.content)); }
@@ -315,15 +336,15 @@ fn one_history(r: &mut Rng, index: usize, no_growth: bool, w: &mut dyn std::io::
             let m = h.d.mem.take().unwrap(); drop(m);
             verify_direct = Some(verify_status(&h.d.path));
         }
-        match Memvid::open(&h.d.path) { Ok(m) => h.d.mem = Some(m), Err(e) => { viol.get_or_insert(format!("{}: the memory cannot be opened after vacuum(): {}", if overflow { "shared-window-overflow" } else { "open-failed" }, e)); } }
+        match Memvid::open(&h.d.path) { Ok(m) => h.d.mem = Some(m), Err(e) => { viol.get_or_insert(format!("{}: the memory cannot be opened after vacuum(): {}", "open-failed", e)); } }
     } else {
         h.tag("doctor"); h.tag(if bits & 7 != 0 { "doctor+index-rebuild" } else { "doctor-vacuum-only" });
         h.d.last_doctor = None;
         h.d.step(&Op::Doctor(bits));
         verify_direct = None;
         let st = h.d.last_doctor.clone().unwrap_or_default();
-        if st == "panic" || st.starts_with("error") || st == "Failed" { viol.get_or_insert(format!("{}: doctor{{vacuum: true, bits {}}} on a healthy closed memory ended with {}", if overflow { "shared-window-overflow" } else { "doctor-failed" }, bits, st)); }
-        if let Some(e) = h.d.open_error.clone() { viol.get_or_insert(format!("{}: the memory cannot be opened after doctor: {}", if overflow { "shared-window-overflow" } else { "open-failed" }, e)); }
+        if st == "panic" || st.starts_with("error") || st == "Failed" { viol.get_or_insert(format!("{}: doctor{{vacuum: true, bits {}}} on a healthy closed memory ended with {}", "doctor-failed", bits, st)); }
+        if let Some(e) = h.d.open_error.clone() { viol.get_or_insert(format!("{}: the memory cannot be opened after doctor: {}", "open-failed", e)); }
     }
 
     // ---------------- state after (fresh handle)
@@ -341,8 +362,9 @@ fn one_history(r: &mut Rng, index: usize, no_growth: bool, w: &mut dyn std::io::
         }
         if mout.is_none() { mout = Some(model_out(&cmp, &file_after, start, cpe)); }
         let payload_end_after = mout.as_ref().unwrap().3;
-        if payload_end_after > cpe && !overflow { viol.get_or_insert(format!("payload-region-grew: the payloads end at {} after the vacuum, at {} before", payload_end_after, cpe)); }
-        if file_len_after > file_len_before && !same_session_put { h.tag("file-grew"); size_viol = Some(format!("file-grew: the file has {} bytes after the vacuum ({}), {} before; {} payload bytes were reclaimable", file_len_after, if via_doctor { "doctor" } else { "direct" }, file_len_before, reclaimable)); }
+        if payload_end_after > cpe && !shared_before { viol.get_or_insert(format!("payload-region-grew: the payloads end at {} after the vacuum, at {} before", payload_end_after, cpe)); }
+        // file size: an observation only (the property speaks of content, not of file length)
+        if !same_session_put { let t = if file_len_after > file_len_before { "file-grew" } else if file_len_after < file_len_before { "file-shrank" } else { "file-same-size" }; h.tag(t); size_note = Some(t.to_string()); }
         size_checked = !same_session_put;
         // a put + commit on the reopened memory must leave everything readable
         if !same_session_put && r.chance(1, 2) {
@@ -350,25 +372,24 @@ fn one_history(r: &mut Rng, index: usize, no_growth: bool, w: &mut dyn std::io::
             let sz = r.range(10, 300) as usize; let ok = h.put(r, PayloadKind::Bin, sz, false, 1001) && h.apply(Op::Commit);
             if !ok { viol.get_or_insert("put-after-vacuum-failed: a put + commit after vacuum and reopen failed".into()); }
             let (a2, _) = snapshot(&mut h.d);
-            let tagname = if overflow { "shared-window-overflow" } else { "content-changed-by-later-put" };
+            let tagname = "content-changed-by-later-put";
             for (b, a) in before.iter().zip(a2.iter()) { if b.status == 0 && a.content != b.content { viol.get_or_insert(format!("{}: after vacuum, reopen, put + commit active frame {} content {:?}, before {:?}", tagname, b.id, a.content, b.content)); } }
             if let Some(nf) = a2.get(before.len()) { if nf.content.is_err() { viol.get_or_insert(format!("{}: the frame put after the vacuum cannot be read: {:?}", tagname, nf.content)); } }
         }
         let m = h.d.mem.take().unwrap(); drop(m);
         verify_after = verify_status(&h.d.path);
-        if !verify_after.0 { viol.get_or_insert(format!("{}: Memvid::verify(deep) after the vacuum and a reopen: Failed [{}]", if overflow { "shared-window-overflow" } else { "verify-failed" }, verify_after.1)); }
+        if !verify_after.0 { viol.get_or_insert(format!("{}: Memvid::verify(deep) after the vacuum and a reopen: Failed [{}]", "verify-failed", verify_after.1)); }
     }
     // verify on the file exactly as vacuum() left it (handle closed, nothing else done)
     let mut verify_out = mode != 0;
     if let Some((ok, why)) = &verify_direct {
         verify_out = *ok;
         if !*ok {
-            if why.starts_with("WalPendingRecords (1 pending records)") && !why.contains(", ") {
-                verify_viol = Some(format!("verify-pending-lex-record: Memvid::verify(deep) on the file as vacuum() left it: Failed [{}] -- the index rebuild appended a lex batch record to the log and vacuum() records no checkpoint", why));
-            } else { viol.get_or_insert(format!("{}: Memvid::verify(deep) on the file as vacuum() left it: Failed [{}]", if overflow { "shared-window-overflow" } else { "verify-failed" }, why)); }
+            viol.get_or_insert(format!("verify-failed: Memvid::verify(deep) on the file as vacuum() left it (handle closed, nothing else done): Failed [{}]", why));
         }
     } else if mode == 0 { verify_out = pending_after == 0; }
-    if overflow { h.tag("class:shared-window-overflow"); }
+    if overflow { h.tag("regression:F-C42-1(copies-exceed-old-payload-end)"); }
+    if shared_before { h.tag("shared-windows"); }
     if order_changed { h.tag("rank-order-changed"); }
     if n_inactive > 0 { h.tag("has-inactive"); }
     if before.iter().any(|f| f.status == 0 && f.len == 0) { h.tag("zero-length-active"); }
@@ -383,15 +404,12 @@ fn one_history(r: &mut Rng, index: usize, no_growth: bool, w: &mut dyn std::io::
         T::N(start as u128), T::L(before.iter().map(row_term).collect()), big(region),
         T::Tup(vec![T::N(data_end as u128), T::N(cpe as u128), T::N(footer as u128)]),
         T::Tup(vec![T::B(lex), T::B(vec_on), T::N(pending as u128)]), big(ix), T::N(mode)]);
-    let output = T::C("Ok", vec![T::Tup(vec![T::L(out_rows), big(out_bytes), T::N(if mode == 0 { data_end_after as u128 } else { 0 }), T::N(if mode == 0 { pending_after as u128 } else { 0 }), T::B(verify_out)])]);
+    let output = T::C("Ok", vec![T::Tup(vec![T::L(out_rows), digest(&out_bytes), T::Tup(vec![T::N(if mode == 0 { data_end_after as u128 } else { 0 }), T::N(if mode == 0 { cpe_after as u128 } else { 0 })]), T::N(if mode == 0 { pending_after as u128 } else { 0 }), T::B(verify_out)])]);
     let key = blake3::hash(input.coq().as_bytes()).to_hex()[..16].to_string();
     let nontrivial = n_active > 0 && (reclaimable > 0 || h.shared || h.grew);
     let _ = verify_after;
     emit(w, if has_model { "vac" } else { "vac-nomodel" }, &Case { input, output, violation: viol, nontrivial, tags: h.tagset.clone(), key: key.clone() });
     if size_checked {
-        emit(w, "size", &Case { input: T::Tup(vec![T::N(mode), T::N(file_len_before as u128)]), output: T::N(file_len_after as u128), violation: size_viol, nontrivial: reclaimable > 0, tags: vec![if via_doctor { "size-doctor".into() } else { "size-direct".into() }], key: format!("s{}", key) });
-    }
-    if verify_direct.is_some() {
-        emit(w, "verify", &Case { input: T::Tup(vec![T::N(mode), T::B(lex)]), output: T::B(verify_out), violation: verify_viol, nontrivial: true, tags: vec!["verify-right-after-direct-vacuum".into()], key: format!("v{}", key) });
+        emit(w, "size", &Case { input: T::Tup(vec![T::N(mode), T::N(file_len_before as u128)]), output: T::N(file_len_after as u128), violation: None, nontrivial: reclaimable > 0, tags: vec![format!("{}:{}", if via_doctor { "doctor" } else { "direct" }, size_note.unwrap_or_default())], key: format!("s{}", key) });
     }
 }
